@@ -28,7 +28,8 @@ RULE = (
     "right-typed values, one returning wrong-typed values, one raising ValidationError. Oracle: strict-accepted => "
     "coerce-accepted (equal typed value when union-free); coerce outcome == reference model extended with the documented "
     "table (int()/float()/str() among str/int/float, boolean words, int->bool, ''->None) at primitive positions only; "
-    "settings route == parameter route; wrong-typed / raising coercers give exactly the strict outcome. "
+    "settings route == parameter route; wrong-typed / raising coercers give exactly the strict outcome (same verdict, same value, "
+    "errors at the same locations). "
     "distinct_nontrivial counts distinct (ctor-pair shape, mode, datum class at root, strict verdict, coerce verdict)."
 )
 
@@ -163,6 +164,16 @@ def run_type(i, label, spec, tier, st):
             st.case(dc.shape_of(label), mode, type(d).__name__, ks, kk)
             if kk == "exc":
                 st.violation(dict(base, signature={"kind": "exception", "exc": type(oo).__name__, "mode": mode}, what=f"{mode} coercer: raised {oo!r}"[:300], source=src))
+            elif kk == "err" and ks == "err" and sorted({repr(l) for l, _ in dc.impl_errors(oo)}) != sorted({repr(l) for l, _ in dc.impl_errors(os_)}):
+                # a coercer that converts nothing: the same positions are in error (messages may be the coercer's own)
+                st.violation(
+                    dict(
+                        base,
+                        signature={"kind": "coercer_hides_errors", "mode": mode, "shape": dc.shape_of(label), "lost": len(dc.impl_errors(oo)) < len(dc.impl_errors(os_))},
+                        what=f"{mode} coercer: errors at {sorted({l for l, _ in dc.impl_errors(oo)}, key=repr)} but strict mode reports {sorted({l for l, _ in dc.impl_errors(os_)}, key=repr)} for {d!r}"[:400],
+                        source=src,
+                    )
+                )
             elif kk != ks or (kk == "ok" and union_free and not has_fbod and not _same(oo, os_)):
                 st.violation(
                     dict(
